@@ -373,7 +373,9 @@ where
         let (new_laidx, n_pstack) =
             self.parser
                 .lr_cactus(None, laidx, laidx + 1, n.pstack.clone(), &mut None);
-        if n.pstack != n_pstack {
+        // A shifted lexeme is progress even if the stack looks the same afterwards (e.g. in
+        // `E: E 'x'` reducing `E 'x'` to `E` and shifting another 'x' gives an identical stack).
+        if new_laidx > laidx || n.pstack != n_pstack {
             let n_repairs = if new_laidx > laidx {
                 n.repairs.child(RepairMerge::Repair(Repair::Shift))
             } else {
